@@ -570,6 +570,11 @@ func confirms(o sym.Outcome, res map[string]any) bool {
 	case "violation":
 		// the native oracles (real tokenizer) may attribute the failure to a
 		// sibling assertion of the same group ("C01.sink.*")
+		if kind == "violation" && id == "C09.race" && strings.HasPrefix(o.ID, "C09.") {
+			// the race detector ends the native run before the byte
+			// comparison is reached: a report confirms the violation
+			return true
+		}
 		return kind == "violation" && (id == o.ID || assertGroup(id) == assertGroup(o.ID))
 	case "panic":
 		return kind == "panic" || kind == "crash" || kind == "stack-overflow"
